@@ -36,6 +36,21 @@ sim::Plan generate(const std::string& prop, uint64_t subseed, const sim::Tier& t
     int n0 = (int)rng.range(3, 10);
     for (int i = 0; i < n0; ++i) p.add(0, "ins", {(long)rng.below(4096), (long)rng.below(3), (long)rng.below(2)});
     p.add(2, "audit");
+    if (rng.chance(1, 4)) {
+      // phased walk: a few swaps, then a deep truncation (several removals in a row), then the complex is grown again - state left behind by a
+      // swap in a slot that only a later re-insertion at the same position reads again
+      int rounds = (int)rng.range(1, 3);
+      for (int q = 0; q < rounds; ++q) {
+        int ns = (int)rng.range(1, 4), nr = (int)rng.range(2, 6), ni = (int)rng.range(2, 7);
+        for (int i = 0; i < ns; ++i) p.add(1, "swap", {(long)rng.below(4096), (long)rng.below(3)});
+        if (rng.chance(1, 2)) p.add(2, "audit");
+        for (int i = 0; i < nr; ++i) p.add(3, "rm_last");
+        for (int i = 0; i < ni; ++i) p.add(0, "ins", {(long)rng.below(4096), (long)rng.below(3), (long)rng.below(2)});
+        p.add(2, "audit");
+      }
+      p.set("walk", "phased");
+      return p;
+    }
     int w_swap = (int)rng.range(5, 12), w_z1 = rng.chance(1, 2) ? (int)rng.range(1, 3) : 0, w_rml = rng.chance(2, 3) ? (int)rng.range(1, 2) : 0, w_rmx = rng.chance(2, 3) ? (int)rng.range(1, 3) : 0, w_ins = rng.chance(3, 4) ? (int)rng.range(1, 3) : 0;
     for (int i = 0; i < nops; ++i) {
       long k = rng.below(w_swap + w_z1 + w_rml + w_rmx + w_ins);
@@ -64,6 +79,7 @@ sim::Plan generate(const std::string& prop, uint64_t subseed, const sim::Tier& t
 
 void execute(const sim::Plan& p, sim::Run& r) {
   std::string grp = p.get("group"), only = p.get("only_config");
+  if (p.get("walk") == "phased") r.count("probe.phased_walk_swap_truncate_regrow");
   std::vector<std::pair<std::string, pmh::Obs>> all;
   for (auto& c : pmh::configs()) {
     if (c.group != grp) continue;
